@@ -28,6 +28,9 @@ FIXED = [
  ("C11", "d31f8df", "zinc-normalisation-loses:grid-ver-other", "Zinc encoder always wrote ver:\"3.0\": a decoded grid version was lost on re-encode"),
  ("C11", "5aa4d80", "hayson-normalisation-loses:grid-ver-other", "Hayson encoder never wrote meta.ver: grid version \"2.0\" came back as \"3.0\""),
  ("C11", "0212cb0", "zinc-normalisation-loses:uri", "Uri control characters (accepted by the decoder) silently dropped by the encoder"),
+ ("C07", "134fa72", "eval:cmp-ne:absent / eval:cmp-ordering:absent|other-kind|list", "filter comparisons resolved a missing tag to Null and used the derived cross-kind order: 'x < 5' and 'x != 5' held for records without x, 'x > 5' for x == \"s\""),
+ ("C08", "56417ef", "printed-text-parses-to-other-tree:and2{has[2],...}", "filter path lexer swallowed following words: 'a->b and c' parsed as the single path a->b->and->c"),
+ ("C09", "f2bcd0f", "crash:stack-overflow", "unbounded recursion of the filter parser on nested parentheses ('(' x 10^4 aborts the process)"),
  ("C20", "4e8a32a", "macro:$n", "display macro names needed >= 2 characters: '$a' and '${b}' never substituted"),
 ]
 KNOWN = [
